@@ -45,6 +45,7 @@ type zz19Call struct {
 }
 
 type zz19Env struct {
+	silentAfter int // from this getBlocksFromId request on the peer answers with an empty list (0 = never)
 	t         *zzT
 	mu        gosync.Mutex
 	database  *db.DB
@@ -227,6 +228,10 @@ func (e *zz19Env) peerBlocksAfter(id []byte) ([]*blockchain.Block, error) {
 	e.mu.Lock()
 	defer e.mu.Unlock()
 	e.blockReqs++
+	if e.silentAfter > 0 && e.blockReqs >= e.silentAfter {
+		// a peer that keeps answering but has (or claims to have) nothing above the requested block
+		return []*blockchain.Block{}, nil
+	}
 	h := e.peerHeightOf(id)
 	if h < 0 {
 		return nil, zz19ErrUnknown
@@ -495,6 +500,9 @@ func zz19FastSync(t *zzT, L, common, f, nv, k, fault, at int) {
 	if fault == 2 {
 		e.rejectID = fork[at].Header.ID
 	}
+	if fault == 3 {
+		e.silentAfter = at + 1
+	}
 	e.commonFixed = true
 	switch {
 	case common < L:
@@ -558,6 +566,12 @@ func zz19FastSync(t *zzT, L, common, f, nv, k, fault, at int) {
 		t.Assert(e.banned(), "a downloaded block fails validation: the peer is banned")
 		t.Assert(e.untouched(), "a downloaded block fails validation: the own chain is untouched (nothing deleted, nothing applied)")
 		t.Reach("invalid_block")
+	case fault == 3:
+		// the peer stops handing out blocks (empty answers) before the announced block arrived: the download must
+		// end with an error instead of asking forever (the consensus loop sits in Sync meanwhile)
+		t.Assert(serr != nil, "a peer that answers with empty block lists ends the sync with an error")
+		t.Assert(e.isChain(e.own), "a peer that answers with empty block lists: the own chain is the original chain")
+		t.Reach("peer_went_silent")
 	case fault == 2:
 		above := e.own[c+1:] // original blocks above the common block
 		before := at + 1     // processor calls up to and including the rejected block
@@ -660,6 +674,39 @@ func zzH_C19_fast_sync_apply(t *zzT) {
 	}
 	zz19FastSync(t, L, common, f, t.Param("V", 2), k, fault, at)
 }
+
+// C09 "no … message received from a peer … can … hang the node" / C19 "converges safely": fast sync against a peer
+// that answers getBlocksFromId with EMPTY lists from its first or a later request on (chunk size 1, so that the
+// download needs several requests). The Downloader must give up; an endless request loop shows as a loop beyond
+// its unwinding bound (a hang, confirmed by a native hang).
+//
+//zz:opt loop=400 paths=200000
+//zz:opt require=peer_went_silent
+//zz:stub ~/pkg/consensus/sync.requestHighestCommonBlock zz19StubCommon
+//zz:stub ~/pkg/consensus/sync.requestBlocksFromID zz19StubBlocks
+//zz:stub (*~/pkg/p2p.Connection).BanPeer zz19StubBan
+//zz:stub go.uber.org/ratelimit.New zz19StubLimiter
+//zz:stub context.WithCancel zz19StubWithCancel
+//zz:quick L=4 V=2 K=3 F=0
+//zz:thorough L=6 V=3 K=4 F=2
+func zzH_C19_fast_sync_silent_peer(t *zzT) {
+	L := t.Param("L", 4)
+	common := t.Range("common", 1, L-1)
+	k := t.Range("forkLen", 2, t.Param("K", 3))
+	at := t.Range("silent.from.request", 0, k-2)
+	zz19FastSync(t, L, common, 0, t.Param("V", 2), k, 3, at)
+}
+
+//zz:opt loop=400 paths=200000
+//zz:opt require=peer_went_silent
+//zz:stub ~/pkg/consensus/sync.requestHighestCommonBlock zz19StubCommon
+//zz:stub ~/pkg/consensus/sync.requestBlocksFromID zz19StubBlocks
+//zz:stub (*~/pkg/p2p.Connection).BanPeer zz19StubBan
+//zz:stub go.uber.org/ratelimit.New zz19StubLimiter
+//zz:stub context.WithCancel zz19StubWithCancel
+//zz:quick L=4 V=2 K=3 F=0
+//zz:thorough L=6 V=3 K=4 F=2
+func zzH_C09_fast_sync_silent_peer(t *zzT) { zzH_C19_fast_sync_silent_peer(t) }
 
 // ---- block sync ----
 
